@@ -9,7 +9,11 @@ for j in mutants/*.json; do
   echo "$n" | grep -Eq "$PAT" || continue
   prop=$(jq -r .property "$j"); expect=$(jq -r .expect "$j")
   W=$(mktemp -d /tmp/verif-selftest.XXXXXX)
-  git -C /repo worktree add -q --detach "$W/r" HEAD >/dev/null 2>&1
+  for try in 1 2 3 4 5 6; do   # several runners may create worktrees at once: git serialises them with a lock
+    git -C /repo worktree add -q --detach "$W/r" HEAD >/dev/null 2>&1 && break
+    sleep 1
+  done
+  [ -d "$W/r" ] || { echo "MUTANT $n: could not create a scratch worktree"; FAIL=$((FAIL+1)); FAILED="$FAILED $n"; rm -rf "$W"; continue; }
   if ! git -C "$W/r" apply "$PWD/mutants/$n.patch" 2>/dev/null; then
     git -C /repo worktree remove --force "$W/r"; rm -rf "$W"
     if [ -n "${SELFTEST_LENIENT:-}" ]; then echo "skipped $n: patch does not apply to this HEAD"; continue; fi
